@@ -712,8 +712,10 @@ fn expand_brace_range(tokens: &mut types::Tokens) {
         let start = match caps[1].to_string().parse::<i32>() {
             Ok(x) => x,
             Err(e) => {
+                // an operand outside i32: leave this word alone, the other ranges of the line still expand
                 println_stderr!("cicada: {}", e);
-                return;
+                idx += 1;
+                continue;
             }
         };
 
@@ -721,7 +723,8 @@ fn expand_brace_range(tokens: &mut types::Tokens) {
             Ok(x) => x,
             Err(e) => {
                 println_stderr!("cicada: {}", e);
-                return;
+                idx += 1;
+                continue;
             }
         };
 
@@ -733,7 +736,8 @@ fn expand_brace_range(tokens: &mut types::Tokens) {
                 Ok(x) => x,
                 Err(e) => {
                     println_stderr!("cicada: {}", e);
-                    return;
+                    idx += 1;
+                    continue;
                 }
             }
         };
